@@ -494,7 +494,7 @@ def run_C18(run):
     run.samples.append("correspondence: all 256 values of int8/uint8 exhaustively; 1500 structured values per wider type (0..9, ~0, 2^k, 2^k+-1, 3*2^k, -2^k, type min/max, top power + 1..5, small negatives, random) crossed with structured multiples (1, 1..17, special), every count for findNSB, random shifts and fields; floating multiples on the dyadic grid incl. exact multiples; gtx pow/sqrt/mod/factorial/nlz")
     return run.finish(TRUST_H + ["tools/trace/gen_C18.py: translator of the interleave/deinterleave ladders (statement grammar; validated on every run against the compiled overloads by vm_compute)",
                                  "oracle_C18.cpp: loop-based one-bit-at-a-time references (violation search; sole check of the 32/64-bit items listed as not theorems)"],
-                      "theorems: every argument value for the translated interleave/deinterleave ladders (2^16..2^64 tuples); every width and value for ceil/floor/next/prevMultiple, isMultiple, mask, fill structure, gtx mod/pow; exhaustive over all 8- and 16-bit values (every count, shift, field) for the power-of-two family, findNSB, rotations; sqrt for x < 65536 and partial correctness of the Newton loop for every 32-bit x; factorial for every width and every n with n! a value of T",
+                      "theorems: every argument value for the translated interleave/deinterleave ladders (2^16..2^64 tuples); every width and value for ceil/floor/next/prevMultiple, isMultiple, mask, fill structure, gtx mod/pow; exhaustive over all 8- and 16-bit values (every count, shift, field) for the power-of-two family, findNSB, rotations; sqrt(int/uint) = floor sqrt for every 32-bit x (Newton loop: invariant + termination inside the model's fuel); factorial for every width and every n with n! a value of T",
                       "gen_C18.py; coqc (Gen_C18_ladders, A_C18_defs, P_C18_ladders, P_C18_w8, P_C18_w16_0..7, P_C18_sqrt_0..3, P_C18_general, P_C05_count, P_C05_msb, P_C18_pow2, P_C18_nsb, Properties_C18); tools/corr/impl_C18 | coq/extract/corr_model")
 
 
